@@ -533,6 +533,67 @@ def exception_path_matrix(cases, obs, repo):
 
 
 # ---------------------------------------------------------------------------------------------
+# one run-and-dispose probe per BUILT-IN function (ids read from front/libmath.h) and per string-producing operator path,
+# each 25 times in a loop so that a per-call loss is multiplied; oracle: the leak monitor
+BUILTIN_LOOP = "func main() -> int { var i = 0; var t = 0; while (i < 25) { %s; i = i + 1 }; 0 }\n"
+BUILTIN_PROBES = {
+    "SIN": "let f = sin(i * 0.1); t = t + 1", "COS": "let f = cos(i * 0.1); t = t + 1", "TAN": "let f = tan(i * 0.01); t = t + 1",
+    "EXP": "let f = exp(i * 0.1); t = t + 1", "LOG": "let f = log(i * 1.0 + 1.0); t = t + 1", "SQRT": "let f = sqrt(i * 1.0); t = t + 1",
+    "POW": "let f = pow(i * 1.0, 2.0); t = t + 1", "STR": "let s = str(i * 1000); t = t + length(s)", "STRF": "let s = strf(i * 1.5); t = t + length(s)",
+    "ORD": "t = t + ord('a')", "CHR": "let c = chr(65 + i); t = t + ord(c)", "READ": "let s = read(); t = t + 1",
+    "PRINT": "print(i)", "PRINTL": "printl(100L)", "PRINTB": "printb(i < 3)", "PRINTF": "printf(i * 0.5)", "PRINTD": "printd(2.5d)",
+    "PRINTC": "printc('x')", "PRINTS": "prints(\"p\" + i + \"\\n\")", "LENGTH": "t = t + length(\"abc\" + i)",
+    "ASSERT": "assert(i >= 0)", "ASSERTF": "assertf(0.1, 0.5)",
+    "C_INT_PTR": "let p = c_int_ptr(i); t = t + 1", "C_LONG_PTR": "let p = c_long_ptr(10L); t = t + 1", "C_FLOAT_PTR": "let p = c_float_ptr(1.5); t = t + 1",
+    "C_DOUBLE_PTR": "let p = c_double_ptr(1.5d); t = t + 1", "C_BOOL_PTR": "let p = c_bool_ptr(true); t = t + 1",
+    "C_CHAR_PTR": "let p = c_char_ptr('c'); t = t + 1", "C_STRING_PTR": "let p = c_string_ptr(\"s\" + i); t = t + 1",
+    "C_PTR_PTR": "let p = c_ptr_ptr(c_int_ptr(i)); t = t + 1",
+}
+STRING_OP_PROBES = [
+    ("concat-string-string", "let s = \"a\" + \"b\"; t = t + length(s + s)"), ("concat-string-int", "let s = \"a\" + i; t = t + length(s)"),
+    ("concat-int-string", "let s = i + \"a\"; t = t + length(s)"), ("concat-string-long", "let s = \"a\" + 10L; t = t + length(s)"),
+    ("concat-long-string", "let s = 10L + \"a\"; t = t + length(s)"), ("concat-string-float", "let s = \"a\" + 1.5; t = t + length(s)"),
+    ("concat-float-string", "let s = 1.5 + \"a\"; t = t + length(s)"), ("concat-string-double", "let s = \"a\" + 1.5d; t = t + length(s)"),
+    ("concat-double-string", "let s = 1.5d + \"a\"; t = t + length(s)"), ("concat-string-char", "let s = \"a\" + 'c'; t = t + length(s)"),
+    ("concat-char-string", "let s = 'c' + \"a\"; t = t + length(s)"), ("concat-chain", "let s = \"a\" + i + \"b\" + 1.5 + 'c' + 2L; t = t + length(s)"),
+    ("compare-eq", "let a = \"x\" + i; t = t + ((a == \"x3\") ? 1 : 0)"), ("compare-neq", "let a = \"x\" + i; t = t + ((a != \"x3\") ? 1 : 0)"),
+    ("compare-temporaries", "t = t + (((\"x\" + i) == (\"x\" + 3)) ? 1 : 0)"),
+    ("slice", "let a = \"abcdefgh\" + i; let b = a[1 .. 4]; t = t + length(b)"), ("slice-reversed", "let a = \"abcdefgh\"; let b = a[5 .. 2]; t = t + length(b)"),
+    ("slice-of-slice", "let a = \"abcdefgh\"; let b = a[1 .. 6]; let c = b[1 .. 3]; t = t + length(c)"),
+    ("index", "let a = \"abc\" + i; t = t + ord(a[1])"), ("assign-copy", "var a = \"abc\"; let b = \"x\" + i; a = b; t = t + length(a)"),
+    ("string-in-array", "let a = [ \"p\" + i, \"q\" + i ] : string; t = t + length(a[1])"),
+    ("string-in-record", "let r = SR(\"n\" + i); t = t + length(r.s)"),
+    ("string-through-call", "t = t + length(dup(\"z\" + i))"), ("string-listcomp", "let a = [ \"k\" + j | j in [ 1, 2, 3 ] : int ] : string; t = t + length(a[2])"),
+    ("str-concat-str", "let s = str(i) + str(i + 1) + strf(0.5); t = t + length(s)"),
+    ("chr-to-string", "let s = \"\" + chr(66); t = t + length(s)"),
+]
+STRING_OP_DECLS = "record SR { s : string; }\nfunc dup(s : string) -> string { s + s }\n"
+
+
+def builtin_ids(repo):
+    try:
+        txt = open(os.path.join(repo, "front", "libmath.h")).read()
+    except OSError:
+        return []
+    return [m for m in re.findall(r"\bLIB_MATH_([A-Z_]+)\b\s*(?:=\s*\d+\s*)?,?", txt.split("libmath_func")[0]) if m != "UNKNOWN"]
+
+
+def builtin_cases(repo):
+    ids = []
+    for i in builtin_ids(repo):
+        if i not in ids:
+            ids.append(i)
+    out = []
+    for i in ids:
+        if i in BUILTIN_PROBES:
+            out.append(("B.%s" % i.lower(), "builtin:" + i, STRING_OP_DECLS + BUILTIN_LOOP % BUILTIN_PROBES[i]))
+    for nm, body in STRING_OP_PROBES:
+        out.append(("B.op.%s" % nm, "string-op:" + nm, STRING_OP_DECLS + BUILTIN_LOOP % body))
+    return out, {"built_in_ids(front/libmath.h)": ids, "ids_without_probe": [i for i in ids if i not in BUILTIN_PROBES],
+                 "string_operator_probes": [nm for nm, _ in STRING_OP_PROBES], "calls_per_probe": 25}
+
+
+# ---------------------------------------------------------------------------------------------
 # entry functions with parameters, run WITH arguments that the host owns.  The kinds an entry may declare
 # (front/typecheck.c func_entry_check_type; back/nev.c nev_prepare_argc_argv; back/vmexec.c vm_execute_push_param):
 # int, float, string in any mix (FUNC_ENTRY_TYPE_PARAM_LIST) or one string array (FUNC_ENTRY_TYPE_STRING_ARRAY).
@@ -1155,6 +1216,11 @@ def build_cases(ctx, rng, workdir, scale):
     for name, phase, fault, T, cname, src in error_path_cases():
         cases.append(MCase("X." + name, "errpath:" + phase, src.encode("latin-1"), None, "",
                            {"phase": phase, "fault": fault, "type": T, "context": cname}))
+    # built-in functions and string-producing operators, each in a loop
+    bcases, binfo = builtin_cases(common.REPO)
+    ctx.coverage["built_in_and_string_operator_probes"] = binfo
+    for cid, cls, src in bcases:
+        cases.append(MCase(cid, cls, src.encode(), None, ""))
     # run-time exception paths, one probe per raise site
     for cid, cls, src, meta in exception_path_cases():
         cases.append(MCase(cid, cls, src.encode(), None, "", meta))
@@ -1478,7 +1544,7 @@ def _run(ctx, drv, mon, workdir, t0):
     t_ls0 = time.time()
     lcases = [c for c in cases if not c.cls.startswith("nest-parser")]
     if not thorough:
-        lcases = [c for i, c in enumerate(lcases) if c.cls.startswith(("runtime", "kept", "use", "corpus", "ffi", "errpath:reducer", "errpath:enum", "entry-args", "exc-site"))
+        lcases = [c for i, c in enumerate(lcases) if c.cls.startswith(("runtime", "kept", "use", "corpus", "ffi", "errpath:reducer", "errpath:enum", "entry-args", "exc-site", "builtin", "string-op"))
                   or (i % 4 == 0 and not c.cls.startswith("owned-token")) or i % 8 == 0]
     ls = lsan_second_opinion(ctx, lcases, workdir, timeout)
     ls_counts = {"run": len(ls), "clean": 0, "leak": 0, "asan-error": 0, "other-abnormal": 0}
